@@ -13,12 +13,15 @@ import (
 	_ "verif/mc/props/c07"
 	_ "verif/mc/props/c08"
 	_ "verif/mc/props/c09"
+	_ "verif/mc/props/c10"
+	_ "verif/mc/props/c11"
 	_ "verif/mc/props/c12"
 	_ "verif/mc/props/c13"
 	_ "verif/mc/props/c14"
 	_ "verif/mc/props/c15"
 	_ "verif/mc/props/c16"
 	_ "verif/mc/props/c17"
+	_ "verif/mc/props/c18"
 	_ "verif/mc/props/c19"
 )
 
